@@ -55,8 +55,10 @@ def suite_call(ctx):
                 combos.append((code, rng.randrange(4), rng.choice(TAILS), rng.random() < 0.5))
         for (code, k, tail, sw) in combos:
             # the edition the client enforces must not matter: a code the configured edition does not list is still a negative response
+            # sometimes inside a suppress-positive-response block that waits for an NRC: a negative reply is still processed normally
+            blk = rng.random() < 0.2
             for std in ([rng.choice([2006, 2013, 2020, 2020])] if 'standard_version' not in c.cfg else [None]) + [2020]:
-                cfg = cl.Cfg(rt=50000, p2=1000, p2s=5000, cb=True, exc=(sw, True, True), std=std if std is not None else 2020)
+                cfg = cl.Cfg(rt=50000, p2=1000, p2s=5000, cb=True, exc=(sw, True, True), std=std if std is not None else 2020, spr=blk, wnrc=blk)
                 client, conn = cl.make_client(cfg, extra=c.config())
                 state = {'first': None}
 
@@ -66,7 +68,10 @@ def suite_call(ctx):
                     sid = p[0]
                     return [(10 * (i + 1), bytes([0x7F, sid, 0x78])) for i in range(k)] + [(10 * (k + 1), bytes([0x7F, sid, code]) + tail)]
                 conn.responder = responder
-                how, verdict, flags, payload, exc, r = cl.observe_outer(conn, lambda: c.invoke(client))
+                def run(client=client, cfg=cfg):
+                    with cl.Ctxs(client, cfg):
+                        return c.invoke(client)
+                how, verdict, flags, payload, exc, r = cl.observe_outer(conn, run)
                 if state['first'] is not None:
                     break                       # (a call the chosen edition refuses locally is repeated under 2020)
             s.count('edition %s' % client.config['standard_version'])
@@ -81,13 +86,17 @@ def suite_call(ctx):
             lines.append(line)
             impl.append('log=%s how=%s verdict=%s flags=%s' % (cl.fmt_log(log), how, verdict, flags))
             # ---- P_spec on the implementation
-            rec = {'site': c.name, 'call': c.desc(), 'code': code, 'k': k, 'tail': tail.hex(), 'exception_on_negative_response': sw, 'standard_version': client.config['standard_version'], 'input': line}
+            rec = {'site': c.name, 'call': c.desc(), 'code': code, 'k': k, 'tail': tail.hex(), 'exception_on_negative_response': sw, 'standard_version': client.config['standard_version'], 'input': line,
+                   'inside_suppress_block_waiting_for_nrc': blk}
+            suppressed = blk and by_sid[frame[0]].use_subfunction()
+            s.count('inside suppress block' if blk else 'outside')
             ncb = sum(1 for op in log if op[0] == 'callback')
             nsend = sum(1 for op in log if op[0] == 'send')
             if code == 0x78:
                 # never surfaced: the request stays pending until the window closes
-                if verdict != 'other:timeout':
-                    s.fail(dict(rec, observed=verdict, required='timeout (0x78 is never surfaced)'))
+                want78 = 'none' if suppressed else 'other:timeout'          # waiting for an NRC: silence after the pending replies is None, not a timeout error
+                if verdict != want78:
+                    s.fail(dict(rec, observed=verdict, required='%s (0x78 is never surfaced)' % want78))
                 elif ncb != k + 1:
                     s.fail(dict(rec, observed='%d callbacks' % ncb, required='%d callbacks' % (k + 1)))
                 s.count('code78')
